@@ -2,6 +2,7 @@ package props
 
 import (
 	"fmt"
+	"strings"
 	"math/rand/v2"
 
 	"rendsim/model"
@@ -142,6 +143,9 @@ func (g *gen) dataOp(proto string, keys []string, now int64, richTTL bool, opq *
 		kinds = append(kinds, "gat", "gat", "qget", "qget")
 	}
 	k := pick(g, kinds)
+	if g.p(1, 60) {
+		k = "hugeget"
+	}
 	op.Key = pick(g, keys)
 	switch k {
 	case "set", "add", "replace":
@@ -187,6 +191,20 @@ func (g *gen) dataOp(proto string, keys []string, now int64, richTTL bool, opq *
 				op.Quiets[i] = true
 			}
 		}
+	case "hugeget":
+		// a get whose text command line is longer than 4 KiB: some twenty long keys that
+		// nobody stores plus a few keys of the alphabet
+		op.Kind = "get"
+		n := 18 + g.n(8)
+		for i := 0; i < n; i++ {
+			k := fmt.Sprintf("long-key-%02d-", i) + strings.Repeat("x", 228)
+			if g.p(1, 6) {
+				k = pick(g, keys)
+			}
+			op.Keys = append(op.Keys, k)
+			op.Quiets = append(op.Quiets, proto == "bin" && i < n-1)
+		}
+		op.Key = ""
 	case "qget":
 		op.Kind = "get"
 		n := 1 + g.n(4)
@@ -196,6 +214,10 @@ func (g *gen) dataOp(proto string, keys []string, now int64, richTTL bool, opq *
 		}
 		op.Noop = true
 		op.Key = ""
+	}
+	// a multi-key get owns the opaques base..base+n: keep later requests clear of them
+	if n := len(op.Keys); n > 8 {
+		*opq += uint32(n)
 	}
 	return op
 }
